@@ -1,7 +1,7 @@
 /-
   Driver ops for the connect handshake and for sessions:
     hs connect <chmax> <flags> <rxp> <script> <dflt>
-        script: letters o s w h g n x (ok silent wrong short garbage nack noise), `-` = empty
+        script: letters o s w h g n x r u (ok silent wrong short garbage nack noise wrongStream badName), `-` = empty
         output: <outcome> t=<tenths> thr=<0|1> intf=<0|1> sent=<S C I<i> P<n> …> | after disconnect: t=… thr=… intf=…
     hs sess <l|h> <chmax> <flags> <rxp> <script> <dflt> <ops> <chunk> [noise=<period ms>:<hex>]
         ops: letters c s t d p (connect, stream start, stream stop, disconnect, pause 0.3 s) on ONE handler object
@@ -22,7 +22,8 @@ open Nxs Nxs.Handshake
 
 def respArg : Char → Option Resp
   | 'o' => some .ok | 's' => some .silent | 'w' => some .wrong | 'h' => some .short
-  | 'g' => some .garbage | 'n' => some .nack | 'x' => some .noise | _ => none
+  | 'g' => some .garbage | 'n' => some .nack | 'x' => some .noise | 'r' => some .wrongStream
+  | 'u' => some .badName | _ => none
 
 def reqStr : Req → String
   | .stop => "S" | .cmninfo => "C" | .chinfo c => s!"I{c}" | .padding n => s!"P{n}"
@@ -73,7 +74,10 @@ def hsSessLoop (lvl : Level) : Sess → HsPhase → List Op → List String → 
     let t0 := x.st.time
     -- does this call join the stream thread, and when?
     let joins := lvl == .high && x.streamStarted && (op == .streamStop || (op == .disconnect && x.connected))
-    let ph1 := if joins then (if awaited then ph.block t0 else ph)
+    -- a STREAM frame as the answer to the stop request reaches the stream thread at once: its poll restarts at t0
+    let restart := joins && awaited && x.st.next.1 == Resp.wrongStream
+    let ph1 := if restart then ({ pending := false, pollStart := some t0 } : HsPhase)
+               else if joins then (if awaited then ph.block t0 else ph)
                else if op == .pause then ph.block t0 else ph
     let w := if joins then
                -- time of the join = after the stop request's ACK wait
